@@ -3,6 +3,7 @@ package main
 import (
 	"fmt"
 	"go/constant"
+	"regexp"
 	"go/token"
 	"go/types"
 	"sort"
@@ -429,7 +430,17 @@ func (ff *FuncFacts) Must(T *ssa.BasicBlock) []Atom {
 func (ff *FuncFacts) condAtomsX(c ssa.Value, pol bool) []string {
 	out := ff.condAtoms(c, pol)
 	if b, ok := c.(*ssa.BinOp); ok && (b.Op == token.EQL || b.Op == token.NEQ) && isNilConst(b.Y) && isErrorType(b.X.Type()) {
-		if call := ff.callTerm(b.X); call != "" {
+		call := ff.callTerm(b.X)
+		if call == "" {
+			// error variable spilled to a cell (named result / captured): its term is
+			// the reaching call result
+			if u, ok := b.X.(*ssa.UnOp); ok && u.Op == token.MUL {
+				if m := callResultRe.FindStringSubmatch(ff.Term(u)); m != nil {
+					call = m[1]
+				}
+			}
+		}
+		if call != "" {
 			eq := (b.Op == token.EQL) == pol
 			if eq {
 				out = append(out, "ok("+call+")")
@@ -1026,6 +1037,8 @@ type StoreFact struct {
 	S  string
 	In ssa.Instruction
 }
+
+var callResultRe = regexp.MustCompile(`^([A-Za-z_][^ ]*\(.*\))(#\d+)?$`)
 
 var alwaysErrMemo = map[*ssa.Function]int{} // 1 = yes, 2 = no, 3 = in progress
 
